@@ -57,6 +57,12 @@ def jit_cached_compile(klass, spec, to_float32=False):
     if to_float32:
         spec = spec_to_float32(spec)
 
+    # copy.deepcopy / pickle / sklearn.clone of an instance cache `__slotnames__` on its
+    # class (copyreg); jitclass rejects it as an unsupported class member
+    for base in klass.__mro__:
+        if "__slotnames__" in vars(base):
+            delattr(base, "__slotnames__")
+
     return jitclass(spec)(klass)
 
 
